@@ -316,6 +316,61 @@ def run(tier, seed):
                         im = ("ok", [list(r[1].shape)]) if r[0] == "ok" else ("err", r[1])
                         if m != im:
                             mm.append({"cls": name, "call": "log_prob(%d rows, ctx rows %s)" % (b, crow), "model": m, "impl": im})
+        # many rows (counts a small-integer shortcut would not tell apart): 257, 600 input rows with a matching context, and
+        # sample_and_log_prob / sample whose rows x n product passes 256
+        for b in (257, 600):
+            x = torch.rand(b, *ev)
+            for crow in ([None] if not needs else []) + ([b, b - 1] if ctxf is not None else []):
+                c = None if crow is None else torch.randn(crow, ctxf)
+                with torch.no_grad():
+                    r = attempt(d.log_prob, x, c)
+                ck.case((name, "lp-many", b, crow), nontrivial=r[0] == "ok")
+                if crow is not None and crow != b:
+                    if not (r[0] == "err" and r[1] == "ValueError"):
+                        ck.finding("log_prob:context-mismatch-not-ValueError:%s" % name.split("[")[0].split("(")[0],
+                                   "log_prob(rows %d, context rows %d) -> %s" % (b, crow, r[:2]), {"search": "lp", "cls": name, "b": b, "crow": crow})
+                elif r[0] != "ok" or list(r[1].shape) != [b]:
+                    ck.finding("log_prob:shape:%s" % name.split("[")[0].split("(")[0],
+                               "log_prob on %d rows (context rows %s) -> %s" % (b, crow, list(r[1].shape) if r[0] == "ok" else r[1:]),
+                               {"search": "lp", "cls": name, "b": b, "crow": crow})
+        for nn_, rows in ((60, 5), (129, 2), (300, None), (257, 1)):
+            if (rows is None and needs) or (rows is not None and ctxf is None):
+                continue
+            ctx = None if rows is None else torch.randn(rows, ctxf)
+            lead = [nn_] if rows is None else [rows, nn_]
+            with torch.no_grad():
+                r = attempt(d.sample_and_log_prob, nn_, ctx)
+            ck.case((name, "salp-many", nn_, rows), nontrivial=r[0] == "ok")
+            if r[0] != "ok" or list(r[1][0].shape) != lead + ev or list(r[1][1].shape) != lead:
+                ck.finding("sample_and_log_prob-shape:%s" % name.split("[")[0].split("(")[0],
+                           "sample_and_log_prob(%d, rows %s) -> %s" % (nn_, rows, [list(t.shape) for t in r[1]] if r[0] == "ok" else r[1:]),
+                           {"search": "salp", "cls": name, "n": nn_, "rows": rows})
+            if has_sampler or True:
+                with torch.no_grad():
+                    r = attempt(d.sample, nn_, ctx, 256)
+                if r[0] != "ok" or list(r[1].shape) != lead + ev:
+                    ck.finding("sample-shape:%s:batched:%s" % (name.split("[")[0].split("(")[0], "context" if rows else "nocontext"),
+                               "sample(%d, context rows %s, batch_size 256) -> %s, documented shape %s"
+                               % (nn_, rows, list(r[1].shape) if r[0] == "ok" else r[1:], lead + ev), {"search": "sample", "cls": name, "n": nn_, "bs": 256, "rows": rows})
+        # no rows at all (a filter that selected nothing): zero values, and zero rows of draws for a zero-row context.  Not asked
+        # of the MADE mixture's sampler: torch.distributions.Categorical itself refuses an empty batch.
+        x = torch.rand(0, *ev)
+        for c in ([None] if not needs else []) + ([torch.randn(0, ctxf)] if ctxf is not None else []):
+            with torch.no_grad():
+                r = attempt(d.log_prob, x, c)
+            ck.case((name, "lp-empty", c is None), nontrivial=False)
+            if r[0] != "ok" or list(r[1].shape) != [0]:
+                ck.finding("log_prob:empty-batch:%s" % name.split("[")[0].split("(")[0],
+                           "%s: log_prob on inputs of shape %s (context %s) -> %s, one value per row means shape [0]"
+                           % (name, list(x.shape), None if c is None else list(c.shape), list(r[1].shape) if r[0] == "ok" else r[1:]),
+                           {"search": "lp-empty", "cls": name, "context": c is not None})
+            if c is not None and not name.startswith("MADEMoG"):
+                with torch.no_grad():
+                    r = attempt(d.sample_and_log_prob, 3, c)
+                if r[0] != "ok" or list(r[1][0].shape) != [0, 3] + ev or list(r[1][1].shape) != [0, 3]:
+                    ck.finding("sample_and_log_prob:empty-context:%s" % name.split("[")[0].split("(")[0],
+                               "%s: sample_and_log_prob(3, context of shape %s) -> %s" % (name, list(c.shape), [list(t.shape) for t in r[1]] if r[0] == "ok" else r[1:]),
+                               {"search": "salp-empty", "cls": name})
         # bad counts
         ctx = None if not needs else torch.randn(2, ctxf)
         ctxenc = [-1] if not needs else [2, ctxf]
